@@ -201,7 +201,7 @@ prop("C11", [
                  "if_mtu above 65535 (only a loopback interface) is outside the contract of the MTU default (`mtu as u16` wraps)"])
 
 prop("C12", [
-    dict(engine="kani", sets=["dhcp_flag", "net_packet"]),
+    dict(engine="kani", sets=["dhcp_flag", "net_packet", "dhcp_ser"]),
     dict(engine="verus", unit="dhcpparse", fns=["parse", "parse_options", "null_terminated"]),
     dict(engine="verus", unit="dhcpser"),
     dict(engine="verus", unit="frame"),
